@@ -1265,6 +1265,22 @@ pub async fn run_micro_suite(seed: u64, cases: usize) -> String {
         Some(us) => format!("{n}={}", us.iter().map(|x| x.to_string()).collect::<Vec<_>>().join(",")),
       })
       .collect();
+    // the statement of `C05_micro_members_are_live_at_quiescence`, evaluated on the implementation: nothing is in progress any
+    // more, so everybody MEMBERS lists has a live connection
+    for (n, v) in &mem {
+      if let Some(us) = v {
+        for u in us {
+          if !live.iter().any(|(lu, _)| lu == u) {
+            let _ = writeln!(
+              m.t,
+              "oracle-failure case={case} C05: [ghost-member] at quiescence MEMBERS of {} lists {}@localhost, who has no live connection",
+              CHANS[*n],
+              MUSERS[*u - 1]
+            );
+          }
+        }
+      }
+    }
     let live_s = live.iter().map(|(u, _)| u.to_string()).collect::<Vec<_>>().join(",");
     let _ = writeln!(m.t, "mi views {} 0,1", if live_s.is_empty() { "-".into() } else { live_s });
     let _ = writeln!(m.t, "impl views idx:{} mem:{}", idx.join(";"), mems.join(";"));
